@@ -497,4 +497,70 @@ theorem detach_equal_content (P P' : Path) (D : Py.Dict String (List Int)) (n : 
 theorem swc_copy_eq (T : DictSWC) : swc_copy T = some T := by
   simp [swc_copy, swc_copy.body, Py.finish]
 
+
+/-! ## the positions a slice designates are valid positions -/
+
+theorem range3_mem_pos (start stop step : Int) (hs : 0 < step) (l : List Int) (h : Py.range3 start stop step = some l) :
+    ∀ i ∈ l, start ≤ i ∧ i < stop := by
+  intro i hi
+  simp only [Py.range3, show step ≠ 0 by omega, if_false, Option.some.injEq] at h
+  subst h
+  simp only [List.mem_map, List.mem_range] at hi
+  obtain ⟨k, hk, rfl⟩ := hi
+  unfold Py.rangeLen at hk
+  simp only [gt_iff_lt, hs, if_true] at hk
+  split at hk
+  · have q1 := Int.ediv_mul_le (stop - start + step - 1) (show step ≠ 0 by omega)
+    have hkq : (k : Int) + 1 ≤ (stop - start + step - 1) / step := by omega
+    have h2 := Int.mul_le_mul_of_nonneg_right hkq (show 0 ≤ step by omega)
+    have h3 := Int.mul_nonneg (show (0 : Int) ≤ k by omega) (show 0 ≤ step by omega)
+    rw [Int.add_mul, Int.one_mul] at h2
+    constructor <;> omega
+  · omega
+
+theorem range3_mem_neg (start stop step : Int) (hs : step < 0) (l : List Int) (h : Py.range3 start stop step = some l) :
+    ∀ i ∈ l, stop < i ∧ i ≤ start := by
+  intro i hi
+  simp only [Py.range3, show step ≠ 0 by omega, if_false, Option.some.injEq] at h
+  subst h
+  simp only [List.mem_map, List.mem_range] at hi
+  obtain ⟨k, hk, rfl⟩ := hi
+  unfold Py.rangeLen at hk
+  simp only [gt_iff_lt, show ¬ (0 < step) by omega, if_false] at hk
+  split at hk
+  · have q1 := Int.ediv_mul_le (start - stop - step - 1) (show -step ≠ 0 by omega)
+    have hkq : (k : Int) + 1 ≤ (start - stop - step - 1) / (-step) := by omega
+    have h2 := Int.mul_le_mul_of_nonneg_right hkq (show 0 ≤ -step by omega)
+    have h3 := Int.mul_nonneg (show (0 : Int) ≤ k by omega) (show 0 ≤ -step by omega)
+    rw [Int.add_mul, Int.one_mul] at h2
+    simp only [Int.mul_neg] at h2 h3 q1
+    constructor <;> omega
+  · omega
+
+/-- **every position `range(*s.indices(n))` yields lies in `0 .. n-1`**: the node handles of `path[a:b:c]` / `tree[a:b:c]` are all valid,
+for every slice (negative / missing / out-of-range bounds, any non-zero step) and every length -/
+theorem slicePositions_inbounds (s : Py.Slice) (n : Nat) (l : List Int) (h : slicePositions s n = some l) : InRange l n := by
+  obtain ⟨a, b, c⟩ := s
+  simp only [slicePositions, Py.sliceIndices] at h
+  by_cases h0 : c.getD 1 = 0 ∨ (n : Int) < 0
+  · simp [h0] at h
+  · simp only [h0, if_false, Option.bind_some] at h
+    have hc : c.getD 1 ≠ 0 := fun e => h0 (Or.inl e)
+    intro i hi
+    rcases Int.lt_or_gt_of_ne hc with hneg | hpos
+    · have := range3_mem_neg _ _ _ hneg l h i hi
+      simp only [hneg, if_true] at this
+      have b1 : -1 ≤ Py.sliceClamp b n (-1) (n - 1) (-1) := by
+        unfold Py.sliceClamp; split <;> (try split) <;> (try split) <;> omega
+      have b2 : Py.sliceClamp a n (-1) (n - 1) (n - 1) ≤ n - 1 := by
+        unfold Py.sliceClamp; split <;> (try split) <;> (try split) <;> omega
+      omega
+    · have := range3_mem_pos _ _ _ hpos l h i hi
+      simp only [show ¬ (c.getD 1 < 0) by omega, if_false] at this
+      have b1 : 0 ≤ Py.sliceClamp a n 0 n 0 := by
+        unfold Py.sliceClamp; split <;> (try split) <;> (try split) <;> omega
+      have b2 : Py.sliceClamp b n 0 n n ≤ n := by
+        unfold Py.sliceClamp; split <;> (try split) <;> (try split) <;> omega
+      omega
+
 end RefineViews
